@@ -84,6 +84,7 @@ func runC10(c *Ctx) {
 	c10Unchecked(c)
 	c10Upload(c)
 	c10LastResort(c, "last-resort")
+	nilFuncCalls(c, "nil-func-call", pkgTransport)
 }
 
 func c10DecodeNil(c *Ctx) {
